@@ -70,5 +70,21 @@ pub fn scan(a: &Args) -> Report {
         rep.count("members_scanned", members);
     }
     rep.sample(|| json!({"scanned_from_entries": es.len()}));
+    // ... and nothing else is erased: a derived definition lists exactly the members of the declaration that are neither
+    // skipped nor PhantomData (a member whose type is merely *named* PhantomData, or comes through a macro, is a member)
+    let docs_feature = cfg!(feature = "docs");
+    for d in crate::gen::decls() {
+        match guard(|| d.check(docs_feature)) {
+            Ok(Ok(st)) => {
+                rep.count("derived_declarations_compared", 1);
+                rep.count("derived_members_compared", st.fields);
+            }
+            Ok(Err((k, m))) if k == "C09/members" || k == "C09/variants" || k == "C09/member-type" => {
+                rep.violation("C17/derive-members-differ-from-declaration", m, json!({"instantiation": d.inst}));
+            }
+            Ok(Err(_)) => rep.count("derived_declarations_differing_in_other_respects", 1),
+            Err(p) => rep.violation("C17/derive-members-differ-from-declaration", format!("{}: type_info() panicked: {}", d.inst, p), json!({"instantiation": d.inst})),
+        }
+    }
     rep
 }
